@@ -23,7 +23,7 @@ Why(e) ==
         ELSE IF ~acc /\ ~e.obs.invalid THEN "illegal-unit-accepted"
         ELSE IF acc /\ def /\ e.obs.conv # "value" THEN "conversion-undefined"
         ELSE IF ~acc /\ e.obs.conv = "value" THEN "conversion-of-unrecognised-unit"
-        ELSE IF acc /\ def /\ ~(\E h \in hits :
+        ELSE IF acc /\ def /\ ~e.obs.zero /\ ~(\E h \in hits :        \* (the number zero is explained by every factor)
                                    TU[h[1]].prefix = e.before /\ TU[h[1]].hasf /\ Factor(TU, TM, h) = <<e.obs.fm, e.obs.fe>>)
              THEN "conversion-factor"
         ELSE "ok"
